@@ -509,7 +509,18 @@ fn kind_tag(k: RecordKind) -> u32 {
     }
 }
 
+/// Nodes and clients always run with a tracing subscriber; tracing evaluates the arguments of a log statement only
+/// when a subscriber enables the call site.  So the harness installs one at TRACE level that formats every event's
+/// fields (into a sink): evaluating log arguments is part of what the code under test does in production.
+fn install_tracing() {
+    let _ = tracing_subscriber::fmt()
+        .with_max_level(tracing::Level::TRACE)
+        .with_writer(std::io::sink)
+        .try_init();
+}
+
 fn main() {
+    install_tracing();
     std::panic::set_hook(Box::new(|_| {}));
     let stdin = std::io::stdin();
     let out = std::io::stdout();
